@@ -281,6 +281,37 @@ def family_idem_extra():
     return out
 
 
+def family_ic_panic():
+    """P8b: a panicking interceptor in the chain, with ordinary and nil-Value (tombstone) messages"""
+    out = []
+    for n in (2, 3):
+        for pidx in range(1, n + 1):
+            for v in ("0.10.0.0", "0.11.0.0"):
+                cfg = dict(interceptors=n, panicIc=pidx, retryMax=1, leaders=[1], nbrokers=1, version=v)
+                steps = [{"op": "submit", "id": 1, "part": 0}, {"op": "submit", "id": 2, "part": 0, "nilval": True},
+                         {"op": "submit", "id": 3, "part": 0, "key": "kk"}, {"op": "wait_outcomes", "n": 3, "ms": 3000}, {"op": "close"}]
+                out.append(sc("icpanic%d-%d-%s" % (n, pidx, v), "ic_panic", cfg, steps))
+    return out
+
+
+def family_timer():
+    """P6b: Flush.Frequency is the only trigger and a burst ends one message past a limit: the message that
+    started the fresh buffer must still go out when the timer fires, without further input"""
+    out = []
+    for v in ("0.10.0.0", "0.11.0.0"):
+        for maxmsgs in (2, 3):
+            cfg = dict(version=v, retryMax=1, leaders=[1], nbrokers=1, flushMaxMsgs=maxmsgs, flushFreqMs=60)
+            steps = submits([(i, 0) for i in range(1, maxmsgs + 2)]) + [{"op": "must_outcomes", "n": maxmsgs + 1, "ms": 2500}, {"op": "close"}]
+            out.append(sc("timer-maxmsgs%d-%s" % (maxmsgs, v), "timer", cfg, steps))
+        cfg = dict(version=v, retryMax=1, leaders=[1], nbrokers=1, maxMsgBytes=1000, flushFreqMs=60)
+        steps = [{"op": "submit", "id": i, "part": 0, "size": 400} for i in (1, 2, 3)] + [{"op": "must_outcomes", "n": 3, "ms": 2500}, {"op": "close"}]
+        out.append(sc("timer-bytes-%s" % v, "timer", cfg, steps))
+        cfg = dict(version=v, retryMax=1, leaders=[1, 1], nbrokers=1, maxReqSize=900, maxMsgBytes=500, flushFreqMs=60)
+        steps = [{"op": "submit", "id": i, "part": i % 2, "size": 300} for i in (1, 2, 3, 4)] + [{"op": "must_outcomes", "n": 4, "ms": 2500}, {"op": "close"}]
+        out.append(sc("timer-reqsize-%s" % v, "timer", cfg, steps))
+    return out
+
+
 def family_limits():
     """P6: sizes straddling the limits, Flush.MaxMessages, lowered MaxRequestSize, lone message per trigger."""
     out = []
